@@ -1,13 +1,14 @@
 package harness
 
 import (
+	"verifsim/simsched"
 	"fmt"
 
 	txfile "github.com/elastic/go-txfile"
 )
 
 func init() {
-	probeNames["C12"] = []string{"queue_full_error", "flush_after_space_freed", "read_on_full_file", "ack_on_full_file", "cycle_completed", "drift_checked", "event_gt_half_file", "pq_reopen", "pq_reopen_with_new_max_size"}
+	probeNames["C12"] = []string{"queue_full_error", "flush_after_space_freed", "read_on_full_file", "ack_on_full_file", "cycle_completed", "drift_checked", "event_gt_half_file", "pq_reopen", "pq_reopen_with_new_max_size", "sustained_traffic_run", "auto_flush_observed"}
 	register(&PropDef{
 		ID: "C12", Level: "exploration", QuickSec: 50, ThoroSec: 900,
 		Rule: "each run = fill/drain cycles on a small bounded simulated file (64-160 KiB, page size 1024-4096, write buffer min..16 pages): the producer writes events (sizes from 1 byte to more than half the file) until Write/Next/Flush report an error, the consumer reads and ACKs a drawn amount, repeated 3-40 cycles (up to 200 thorough), with reopen between some cycles; in a third of the runs some reopens give the (possibly full) file a new limit through FlagUpdMaxSize (grow by 16-64 KiB or shrink, also below the space in use; all content oracles stay on, the space oracles are off once the limit was reduced). Oracles: FIFO/byte-exact delivery over the whole run (C05 oracle; a Write that returned (0,err) appended nothing); reading and ACK succeed on the full file; after ACKs freed space a later Flush succeeds within 2 calls and the buffered events come out in order; space bound: data pages in use <= pages spanned by un-ACKed+buffered events + constant (root page + pages of the most recent event + 2), and no drift: with everything ACKed the number of pages in use after the first cycle equals the number after the last cycle. Non-trivial = run that hit the full-file error at least twice and recovered; distinct = op list + config + schedule hash.",
@@ -36,10 +37,23 @@ func c12Body(e *Env) {
 		}
 		c.Cfg = &cfg
 	}
+	if c.Cfg.Variant == 0 && !c.Explicit && rng.Intn(25) == 0 {
+		// sustained traffic: the consumer keeps up, thousands of events pass
+		// through a small file, automatic flushes only, no reopen
+		c.Cfg.Variant = 3
+		c.Cfg.PageSize = []int{1024, 2048}[rng.Intn(2)]
+		c.Cfg.MaxSize = []int{64, 96, 128}[rng.Intn(3)] << 10
+		c.Cfg.WriteBuf = []int{0, 8}[rng.Intn(2)] * c.Cfg.PageSize
+		c.Cfg.NTx = 1500 + rng.Intn(1500)
+		if c.Tier == "thorough" {
+			c.Cfg.NTx = 3000 + rng.Intn(6000)
+		}
+	}
 	cfg := *c.Cfg
 	d := e.NewDisk("queue")
 	p := NewPQ(e, d, cfg)
 	p.Prop = "C12"
+	p.BufMonitor = cfg.Variant == 3
 	p.CheckCounters = rng.Intn(2) == 0 // C17 oracle on full files
 	defer func() { c.Tasks = map[string][]Op{"main": p.Ops} }()
 	if err := p.Open(); err != nil {
@@ -97,8 +111,18 @@ func c12Body(e *Env) {
 			if p.Cfg.MaxSize < before {
 				shrunk = true
 			}
+			if cfg.Variant == 3 && p.full && !e.Failed() {
+				p.fail("spurious-full", "sustained traffic: the producer reports out of space although the consumer keeps up (%d events flushed, %d ACKed, file of %d pages)", p.cbFlushed, p.acked, maxPages)
+			}
 		}
 		checkSpace("end of explicit history")
+		return
+	}
+	if cfg.Variant == 3 {
+		c12Sustained(e, p, rng, cfg.NTx)
+		checkSpace("end of sustained traffic")
+		e.Res.Sig = sigOfOps(p.Ops, uint64(ps), uint64(cfg.MaxSize), uint64(cfg.WriteBuf))
+		e.Res.Nontrivial = true
 		return
 	}
 	g := NewPQGen(p, e.Rng("ops"))
@@ -247,3 +271,43 @@ func c12Body(e *Env) {
 }
 
 func overflowAdj(s txfile.VerifAllocState) int { return 0 }
+
+// c12Sustained: n events pass through a small file while the consumer keeps
+// up. Event sizes mostly leave 1-3 unusable bytes at the end of a page. The
+// producer never calls Flush; the file never gets full, so no producer call
+// may fail, and the amount buffered at automatic flushes must not drift
+// (PQ.BufMonitor).
+func c12Sustained(e *Env, p *PQ, rng *simsched.Rand, n int) {
+	ps := p.Cfg.PageSize
+	payload := ps - pqPageHeader
+	maxPages := p.Cfg.MaxSize / ps
+	e.Probe("sustained_traffic_run")
+	d := 1 + rng.Intn(3)
+	drain := func() {
+		p.Drain(-1)
+		for p.rdDone > p.acked && !e.Failed() {
+			p.Apply(Op{K: "ack", A: 1 << 20})
+		}
+	}
+	for i := 0; i < n && !e.Failed(); i++ {
+		sz := payload - pqEventHeader - d
+		switch rng.Intn(10) {
+		case 0:
+			sz = 1 + rng.Intn(payload/2)
+		case 1:
+			sz = payload - pqEventHeader - (1 + rng.Intn(3))
+		}
+		p.Apply(Op{K: "write", A: sz, B: sz})
+		p.Apply(Op{K: "next"})
+		if p.full && !e.Failed() {
+			p.fail("spurious-full", "sustained traffic, event %d: the producer reports out of space although the consumer keeps up (%d events flushed, %d ACKed, file of %d pages)", i, p.cbFlushed, p.acked, maxPages)
+			return
+		}
+		// keep up: never more than a quarter of the file un-ACKed
+		if (p.cbFlushed-p.acked)*2 >= maxPages/2 || rng.Intn(40) == 0 {
+			drain()
+		}
+		e.Yield("op")
+	}
+	drain()
+}
